@@ -302,6 +302,7 @@ class Interp:
             self.fail(owner, 'hang', f'{what}: {e}')
         except Exception as e:
             if isinstance(e, expect_exc):
+                e.__traceback__ = None
                 return ('exc', e)
             self.fail(owner, 'op_raised', f'{what}: {type(e).__name__}: {e}')
 
